@@ -380,3 +380,108 @@ def check_loss_objects(ctx):
             ctx.case(('glo', cls_id, defocus, planes, bsize, psnr, tuple(c[0] for c in calls)), True, rec if it < 1 else None)
             ctx.count('regenerated object vs replaced attributes/%s' % cls_name)
             ctx.traces += 1
+
+
+# ---------------------------------------------------------------------------------------------------------------- the planar mesh
+def check_mesh_object(ctx):
+    """planar_mesh: attribute names and the order `__init__` assigns them; per call (mirror / get_triangles / get_squares, interleaved with in-place
+    updates of the learned heights, some calls under torch.no_grad()) which attributes are replaced or written in place, against the regenerated step
+    functions; monitor: every `mirror` equals the mirror of a NEW mesh built with the heights as they are now, and carries a gradient to the heights
+    whenever gradients are enabled at that call"""
+    if not ctx.drv_ok:
+        return
+    from odak.learn.raytracing.mesh import planar_mesh
+    rng = ctx.rng
+    F = torch.float32
+    fields = ctx.model.ask(['gmo_fields'])[0].split(',')
+    for it in range(ctx.n(4, 16)):
+        given = rng.random() < 0.7
+        n0, n1 = rng.choice([(3, 3), (3, 4), (2, 2)])
+        size, offset, tilt = [2.0, 3.0], [0.3, -0.2, 4.0], rng.choice([[0., 0., 0.], [12., -8., 20.]])
+        h0 = (torch.rand(n0, n1, 1, generator=torch.Generator().manual_seed(20 + it)) * 0.1) if given else None
+
+        def build(hgt):
+            return planar_mesh(size=torch.tensor(size), number_of_meshes=torch.tensor([n0, n1]), angles=torch.tensor(tilt), offset=torch.tensor(offset),
+                               heights=None if hgt is None else hgt.detach().clone())
+        mesh = planar_mesh(size=torch.tensor(size), number_of_meshes=torch.tensor([n0, n1]), angles=torch.tensor(tilt), offset=torch.tensor(offset), heights=h0)
+        names = list(vars(mesh))
+        if set(names) != set(fields):
+            ctx.alarm('correspondence', 'planar_mesh: a constructed object has the attributes %s, the regenerated structure the fields %s' % (sorted(names), sorted(fields)))
+            return
+        # rays aimed at the interior of the mesh from in front of it (in the mesh frame, then moved with the mesh)
+        from odak.learn.tools import rotate_points
+        o_ = torch.tensor([[0.1, 0.2, -3.0], [-0.3, 0.4, -3.0]], dtype=F)
+        d_ = torch.tensor([[0.02, -0.01, 1.0], [0.05, 0.03, 1.0]], dtype=F)
+        d_ = d_ / d_.norm(dim=1, keepdim=True)
+        ro, *_ = rotate_points(o_, angles=torch.tensor(tilt))
+        rd, *_ = rotate_points(d_, angles=torch.tensor(tilt))
+        rays = torch.stack([ro + torch.tensor(offset), rd], dim=1).detach()
+        calls, parts = [], []
+        for k in range(rng.randint(*ctx.n((4, 6), (4, 9)))):
+            r = rng.random()
+            if r < 0.45:
+                calls.append(('mirror', rng.random() < 0.35))            # .. under torch.no_grad()?
+                parts.append('0 %d' % (50 + k))
+            elif r < 0.6:
+                calls.append(('get_triangles', rng.random() < 0.5))
+                parts.append('1')
+            elif r < 0.7:
+                calls.append(('get_squares', False))
+                parts.append('2')
+            else:
+                calls.append(('learn', 60 + k))
+                parts.append('3 %d' % (60 + k))
+        line = 'gmo_seq %d %d %s' % (int(given), len(calls), ' '.join(parts))
+        out = ctx.model.ask([line])[0]
+        init_log, _, rest = out.partition('|')
+        if init_log == 'RAISE':
+            ctx.alarm('correspondence', 'planar_mesh: the regenerated __init__ raises for a configuration the implementation accepts')
+            continue
+        model = parse(rest) if rest else []
+        order = first_occurrences([n for n in init_log.split(',') if '.' not in n])
+        if order != names:
+            ctx.alarm('correspondence', 'planar_mesh.__init__ first assigns its attributes in the order %s, the regenerated __init__ in the order %s' % (names, order))
+        rec = {'class': 'planar_mesh', 'nodes': [n0, n1], 'tilt': tilt, 'heights_given': given, 'calls': [list(map(lambda z: int(z) if isinstance(z, bool) else z, c)) for c in calls],
+               'seed': ctx.seed}
+        impl = []
+        for k, c in enumerate(calls):
+            before = snapshot(mesh)
+            try:
+                if c[0] == 'learn':
+                    with torch.no_grad():                                   # what an optimiser step does: the leaf is updated in place
+                        mesh.heights.add_(torch.rand(n0, n1, 1, generator=torch.Generator().manual_seed(c[1])) * 0.05)
+                    after = snapshot(mesh)
+                    rep, inp = observe(before, after)
+                    impl.append((rep, inp - {'heights'}, 'X'))               # the write into `heights` is the caller's
+                    continue
+                if c[1]:
+                    with torch.no_grad():
+                        ret = getattr(mesh, c[0])(rays) if c[0] == 'mirror' else getattr(mesh, c[0])()
+                else:
+                    ret = getattr(mesh, c[0])(rays) if c[0] == 'mirror' else getattr(mesh, c[0])()
+                fresh_obj = build(mesh.heights)
+                fresh = getattr(fresh_obj, c[0])(rays) if c[0] == 'mirror' else getattr(fresh_obj, c[0])()
+            except Exception as e:
+                impl.append(None)
+                ctx.count('planar_mesh/call raised %s' % type(e).__name__)
+                break
+            after = snapshot(mesh)
+            rep, inp = observe(before, after)
+            rets = list(ret) if isinstance(ret, tuple) else [ret]
+            kinds = [classify(t, after, []) for t in rets]
+            impl.append((rep, inp, 'V' if all(x in ('V', 'N') for x in kinds) else ','.join(kinds)))
+            # property monitor: the value is the value for the heights as they are NOW ...
+            if not close(ret, fresh, 1e-5):
+                ctx.violation('planar_mesh.%s: call %d of the sequence %s differs from what a newly built mesh with the current heights returns'
+                              % (c[0], k, [c_[0] for c_ in calls]), dict(rec, failing_call=k), {'what': 'history', 'fn': 'planar_mesh.' + c[0]})
+                break
+            # ... and it carries a gradient to the heights when gradients are enabled at this call
+            if not c[1] and c[0] in ('mirror', 'get_triangles') and rets[0].numel() and not rets[0].requires_grad:
+                ctx.violation('planar_mesh.%s: call %d of the sequence %s (gradients enabled) returns a tensor without a gradient path to the heights'
+                              % (c[0], k, [(c_[0], c_[1]) for c_ in calls]), dict(rec, failing_call=k), {'what': 'no_gradient', 'fn': 'planar_mesh.' + c[0]})
+                break
+        ctx.case(('gmo', given, n0, n1, tuple(tilt), tuple((c[0], c[1]) for c in calls)), True, rec if it < 1 else None)
+        ctx.count('regenerated object vs replaced attributes/planar_mesh')
+        ctx.traces += 1
+        model = [None if m is None else (m[0], m[1], 'V' if all(x in ('V', 'N') for x in m[2].split(',')) else m[2]) for m in model]
+        compare_calls(ctx, 'planar_mesh', line, impl, model)
